@@ -24,19 +24,15 @@ type gate struct {
 
 // enter is the first statement of every storage method of the recording store
 func (s *recStore) enter(ctx context.Context) {
+	if g := s.gate; g != nil {
+		if i, ok := ctx.Value(thrKey{}).(int); ok {
+			g.arrive <- i
+			<-g.proceed[i]
+			s.cur = i // (set after the release: other requests arrive at the gate while this one is parked)
+		}
+	}
 	tok, _ := ctx.Value(txKey{}).(int)
 	s.inTx = s.snap != nil && tok == s.txSeq
-	g := s.gate
-	if g == nil {
-		return
-	}
-	i, ok := ctx.Value(thrKey{}).(int)
-	if !ok {
-		return
-	}
-	s.cur = i
-	g.arrive <- i
-	<-g.proceed[i]
 }
 
 const parSep = "\x1f"
